@@ -15,7 +15,14 @@ pub fn run(case: &Value, em: &mut Emitter) {
     };
     let bytes = write_doc(&doc);
     let out = decode_out(&bytes);
-    em.emit("decode", json!({"doc": doc}), out);
+    em.emit("decode", json!({"doc": doc, "via": "slice"}), out);
+    // the same document through the reader entry point, the stream cut into uneven chunks
+    let sizes: Vec<usize> = (0..8).map(|k| 1 + (bytes.len() * (k + 3) / 7) % 37).collect();
+    let out = guard(|| match sourcemap::decode(crate::c12::ChunkedReader::new(bytes.clone(), sizes.clone(), 4096)) {
+        Ok(d) => { let mut p = proj_map(&d); p["k"] = json!("ok"); p }
+        Err(e) => json!({"k": "err", "e": format!("{:?}", e).chars().take(80).collect::<String>()}),
+    });
+    em.emit("decode", json!({"doc": doc, "via": "reader"}), out);
 }
 
 // ---------------------------------------------------------------- random documents
@@ -23,7 +30,7 @@ pub struct Pools;
 pub const SRC_POOL: &[&str] = &["a.js", "", "/abs/x.js", "http://h/y.js", "https://h/z.js", "httpx.js", "dir/b.js", "a.js", "ünï.js", "http:", "/"];
 pub const ROOT_POOL: &[&str] = &["", "r", "r/", "/", "webpack:///", "http://cdn/x", "r//"];
 pub const NAME_POOL: &[&str] = &["foo", "", "bar", "foo", "\"q\"", "naïve", "𝒳", "a\\b", "\n"];
-pub const UUIDS: &[&str] = &["00000000-0000-0000-0000-000000000000", "11111111-1111-1111-1111-111111111111", "a0b1c2d3-e4f5-4a6b-8c7d-9e0f1a2b3c4d"];
+pub const UUIDS: &[&str] = &["00000000-0000-0000-0000-000000000000", "11111111-1111-1111-1111-111111111111", "a0b1c2d3-e4f5-4a6b-8c7d-9e0f1a2b3c4d", "a0b1c2d3-e4f5-4a6b-8c7d-9e0f1a2b3c4d-a", "11111111-1111-1111-1111-111111111111-ff"];
 
 /// random well-formed abstract token list, sorted by construction (text order), returned as a
 /// mappings text produced by the harness's own writer; may contain empty lines/segments and
